@@ -9,6 +9,11 @@ use tera::{Context, Value};
 pub enum SKey {
     #[serde(rename = "s")]
     S(String),
+    /// a string key as a serialised Rust struct carries it (`Key::Str(&'static str)`, not the
+    /// owned `Key::String` of map data and template literals); names outside `STATIC_NAMES`
+    /// fall back to an owned key
+    #[serde(rename = "st")]
+    Static(String),
     #[serde(rename = "i")]
     I(i64),
     #[serde(rename = "u")]
@@ -92,10 +97,19 @@ pub fn fmt_f(f: f64) -> String {
     }
 }
 
+const STATIC_NAMES: &[&str] = &[
+    "name", "age", "group", "tags", "active", "k", "a", "b", "c", "z", "id", "key", "k0", "k1", "k2", "k3", "k4", "key0", "key1", "key2", "key3", "key4", "a0", "a1", "a2", "a3", "a4", "z0", "z1", "z2", "z3", "z4",
+    "name0", "name1", "name2", "name3", "name4", "id0", "id1", "id2", "id3", "id4",
+];
+
 impl SKey {
     pub fn to_key(&self) -> Key<'static> {
         match self {
             SKey::S(s) => Key::from(s.clone()),
+            SKey::Static(s) => match STATIC_NAMES.iter().find(|n| **n == s.as_str()) {
+                Some(n) => Key::Str(n),
+                None => Key::from(s.clone()),
+            },
             SKey::I(i) => Key::I64(*i),
             SKey::U(u) => Key::U64(*u),
             SKey::B(b) => Key::Bool(*b),
@@ -265,6 +279,7 @@ pub fn gen_map(rng: &Rng, depth: usize) -> SVal {
             0 => SKey::I(rng.irange(-3, 3)),
             1 => SKey::U(rng.below(5) as u64),
             2 => SKey::B(rng.chance(1, 2)),
+            3 | 4 => SKey::Static(format!("{}{}", rng.pick(&["k", "key", "a", "z", "name", "id"]), i)),
             _ => SKey::S(format!("{}{}", rng.pick(&["k", "key", "a", "z", "name", "id"]), i)),
         };
         if kvs.iter().any(|(kk, _)| kk == &k) {
@@ -277,6 +292,24 @@ pub fn gen_map(rng: &Rng, depth: usize) -> SVal {
 }
 
 fn gen_user(rng: &Rng, i: usize) -> SVal {
+    let m = gen_user_map(rng, i);
+    // half of the users look like a serialised Rust struct (static field names as keys)
+    if rng.chance(1, 2) {
+        if let SVal::Map(kvs) = m {
+            return SVal::Map(
+                kvs.into_iter()
+                    .map(|(k, v)| match k {
+                        SKey::S(s) => (SKey::Static(s), v),
+                        k => (k, v),
+                    })
+                    .collect(),
+            );
+        }
+    }
+    m
+}
+
+fn gen_user_map(rng: &Rng, i: usize) -> SVal {
     SVal::map(vec![
         ("name", SVal::Str(if rng.chance(1, 2) { gen_string(rng) } else { format!("user{}", i) })),
         ("age", SVal::I64(rng.irange(0, 90))),
